@@ -1,5 +1,8 @@
 #![allow(clippy::all)]
+pub mod dto;
 pub mod engine;
+pub mod model;
 pub mod props;
 pub mod refimpl;
 pub mod tape;
+pub mod wiretap;
